@@ -604,6 +604,11 @@ func (c *Conn) readRecordOrCCS(expectChangeCipherSpec bool) error {
 		}
 
 		if len(c.rawInputBuf) < recordHeaderLen {
+			if handshakeComplete {
+				// 见下：无效的数据报静默丢弃
+				c.rawInputBuf = nil
+				continue
+			}
 			return c.in.setErrorLocked(errors.New("dtlcp: record too short"))
 		}
 
@@ -615,6 +620,14 @@ func (c *Conn) readRecordOrCCS(expectChangeCipherSpec bool) error {
 		seqNum := uint48(hdr[5])<<40 | uint48(hdr[6])<<32 | uint48(hdr[7])<<24 |
 			uint48(hdr[8])<<16 | uint48(hdr[9])<<8 | uint48(hdr[10])
 		n := int(hdr[11])<<8 | int(hdr[12])
+
+		// 连接建立后，记录头无效（版本不符、长度超限或超出数据报）的数据报与验证失败的记录一样
+		// 静默丢弃 (RFC 6347 §4.1.2.7)：记录头未经验证，任何人都可以伪造，不得因此中断连接；
+		// ReadFrom 路径已是如此
+		if handshakeComplete && ((c.haveVers && vers != c.vers) || n > maxCiphertext || recordHeaderLen+n > len(c.rawInputBuf)) {
+			c.rawInputBuf = nil
+			continue
+		}
 
 		// 版本检查
 		if c.haveVers && vers != c.vers {
